@@ -214,6 +214,18 @@ func checkResolution(rec *Recipe, src []byte, formatted bool, ri *RunInfo) *Viol
 		}
 		used[path] = u.Qual
 	}
+	// every import the File declares under a name must be used: an import nobody refers to
+	// does not compile either ("imported and not used"), and takes a name away from a real one
+	for _, s := range specs {
+		if s.Name == "_" || s.Name == "." || s.Path == rec.File.Path || s.Path == "C" {
+			continue
+		}
+		if _, ok := used[s.Path]; !ok {
+			return &Violation{Rule: "C03-unused-import",
+				Detail:   fmt.Sprintf("the import block declares %q, but no qualified identifier in the file was built with that path: the file does not type-check with respect to its imports", s.Path),
+				Observed: trunc(string(src), 1800)}
+		}
+	}
 	ri.count("files_resolved", 1)
 	ri.count("qualified_paths_resolved", len(used))
 	// probes: collisions resolved
